@@ -214,7 +214,10 @@ def classify_failure(engine, exc: BaseException) -> dict[str, Any]:
     funcs = [f for _, f in frames]
     inner = frames[-1] if frames else ("?", "?")
     line = node.position.line if node is not None else None
-    tname = type(root).__name__
+    deepest = root
+    while (deepest.__cause__ or deepest.__context__) is not None:
+        deepest = deepest.__cause__ or deepest.__context__
+    tname = type(deepest).__name__
 
     def out(cat, site):
         return {"category": cat, "site": site, "line": line, "exc": tname, "raised_in": f"{inner[0]}.{inner[1]}",
